@@ -115,7 +115,10 @@ def build_case(rng, views, dialect, n_events, n_faults, dirty):
             f = make_fault(rng, h, kind, subscribed)
             if f is not None:
                 # the same faulty packet 1..3 times in a row (a repeated fault must fail each time, with no carry-over)
-                for _ in range(rng.choice([1, 1, 2, 3]) if kind.startswith('unknown') else 1):
+                reps = rng.choice([1, 1, 2, 3]) if kind.startswith('unknown') else 1
+                if kind.startswith('unknown') and rng.random() < 0.08:
+                    reps = rng.choice([100, 130, 1100])          # a long uninterrupted run of failures: every one of them is skipped
+                for _ in range(reps):
                     h.packets.append((f[0], f[1], {'kind': 'fault', 'fault': kind, 'time': h.clock()}))
                     faults.append(len(h.packets) - 1)
             continue
